@@ -5,8 +5,12 @@ CONSTANTS
   ThetaVecs <- Theta1
   AllCompletions = FALSE
   FW = 8
+  MaxRounds = 1
+  MaxRefresh = 1
+  PrivateSlice = TRUE
+  KeepHist = FALSE
   CheckRand = FALSE
   RandWMax = 4
   CheckUnif = FALSE
   UnifNMax = 0
-INVARIANTS Emit TypeOK Distinct StickyKept ElseResetWithFilter Participants LaunchedAreParticipants OneValuePerParticipant NoPathError ResetExactlyNonSticky
+INVARIANTS Emit TypeOK TableIntact Distinct StickyKept ElseResetWithFilter Participants LaunchedAreParticipants OneValuePerParticipant NoPathError ResetExactlyNonSticky
